@@ -1,4 +1,5 @@
 import GeoVerif.Lemmas.C16
+import GeoVerif.Lemmas.CodeSchedules
 /-!
 # C16 — Price and incentive schedules have the documented shape
 
@@ -76,6 +77,32 @@ theorem opex_fees_exact (coam fees relief : Rat) : opexAdjust coam fees relief =
 
 /-- non-vacuity: a concrete schedule that escalates, hits the cap and carries an inflation-adjusted credit -/
 example : pricing 5 (1/10) (3/10) 1 (1/10) (ptcModel 5 3 (1/2) true (1/10)) =
+    [3/5, 13/20, 161/200, 3/10, 3/10] := by decide +kernel
+
+/-! ## Tie by translation
+
+`Generated/Code.lean` is written on every run by `tools/py2lean.py` from the *current* source text of `BuildPricingModel` and
+`BuildPTCModel` (assignments, list item assignment with Python's index semantics, `for … in range`, `if`).  The next theorems say
+that what the source says **is** the model the theorems above are about — for every lifetime, start year, duration, every rational
+price / rate and every credit list.  A change of either function changes the generated definition and these proofs are re-checked
+against it.  (Guards: `plantlifetime`, `EscalationStartYear`, `duration` are natural numbers as the parameter ranges make them;
+`L ≤ ptc.length` / `dur ≤ L` are where Python would raise `IndexError` otherwise.) -/
+
+theorem code_BuildPricingModel_is_model (L s : Nat) (p0 p1 r : Rat) (ptc : List Rat) (_hlen : L ≤ ptc.length) :
+    Code.BuildPricingModel (L : Int) p0 p1 (s : Int) r ptc = pricing L p0 p1 s r ptc := code_pricing_eq L s p0 p1 r ptc
+
+theorem code_BuildPTCModel_is_model (L dur : Nat) (v infl : Rat) (adj : Bool) (hd : dur ≤ L) :
+    Code.BuildPTCModel (L : Int) (dur : Int) v adj infl = ptcModel L dur v adj infl := code_ptc_eq L dur v infl adj hd
+
+/-- the documented shape, stated directly about the translated source: year `i` of the price schedule built from the PTC schedule -/
+theorem code_price_shape (L s dur : Nat) (p0 p1 r v infl : Rat) (adj : Bool) (hd : dur ≤ L) (i : Nat) (hi : i < L) :
+    (Code.BuildPricingModel (L : Int) p0 p1 (s : Int) r (Code.BuildPTCModel (L : Int) (dur : Int) v adj infl)).getD i 0 =
+      min (p0 + (if s ≤ i then ((i - s : Nat) : Rat) * r else 0)) p1
+        + (if i < dur then (if adj then v * (1 + infl) ^ i else v) else 0) := by
+  rw [code_ptc_eq L dur v infl adj hd, code_pricing_eq, pricing_closed L p0 p1 s r _ i hi, ptcModel_closed L dur v infl adj hd i hi]
+
+/-- non-vacuity: the translated source evaluated on a concrete schedule -/
+example : Code.BuildPricingModel 5 (1/10) (3/10) 1 (1/10) (Code.BuildPTCModel 5 3 (1/2) true (1/10)) =
     [3/5, 13/20, 161/200, 3/10, 3/10] := by decide +kernel
 
 end GeoVerif.C16
